@@ -86,7 +86,7 @@ func opAlphabet(prop string, v *world.View) []wOp {
 		ops = append(ops, wOp{Kind: "setnode", Node: n, Delta: "+mem"})
 	}
 	if prop == "C11" {
-		ops = append(ops, wOp{Kind: "setnode", Node: "n1", Delta: "labels"}, wOp{Kind: "setnode", Node: "n1", Delta: "+cpu"},
+		ops = append(ops, wOp{Kind: "setnode", Node: "n1", Delta: "labels"}, wOp{Kind: "setnode", Node: "n1", Delta: "+cpu"}, wOp{Kind: "setnode", Node: "n2", Delta: "+mem-numa"},
 			wOp{Kind: "addnode", Node: "n3"}, wOp{Kind: "removenode", Node: "n1"}, wOp{Kind: "removenode", Node: "n2"})
 	}
 	return ops
@@ -138,7 +138,7 @@ func worldExplore(t *testing.T, c *vcore.Ctx, prop string) {
 		c.HarnessError("initial cluster: %v", err)
 		return
 	}
-	c.SetRule("explicit-state BFS from a cluster of one pod and two nodes (n1: 2 cores/200 memory, n2: 4 cores in 2 NUMA nodes/400 memory): each transition is one real API call (create AUTO/EACH x count x {memory-only, bound 1.0, bound 0.5}; remove/dissociate/replace/realloc{+mem,-mem,+cpu,unbind,bind} of one workload per (node,resources) class; set-node; for C11 also add-node/remove-node/set-node labels) run to quiescence on a fresh core instance in a virtual-time bubble; " +
+	c.SetRule("explicit-state BFS from a cluster of one pod and two nodes (n1: 2 cores/200 memory, n2: 4 cores in 2 NUMA nodes/400 memory): each transition is one real API call (create AUTO/EACH x count x {memory-only, bound 1.0, bound 0.5}; remove/dissociate/replace/realloc{+mem,-mem,+cpu,unbind,bind} of one workload per (node,resources) class; set-node; for C11 also add-node/remove-node/set-node labels, +cpu and more memory with a re-cut NUMA layout) run to quiescence on a fresh core instance in a virtual-time bubble; " +
 		"states are de-duplicated by a canonical form without ids; every (state, operation) is re-run once per intercepted step (etcd request, engine call, WAL write) with that step failing; non-trivial = distinct (pre-state, operation, failing step) whose fault was delivered, plus distinct fault-free transitions")
 	c.Assume("etcd is the in-memory model memetcd (bound to the embedded etcd by ./check memetcd-conformance); engines are the stateful fakev engines")
 	c.Assume("a failing step has no effect and returns an error; every other step (including compensations) succeeds")
